@@ -326,4 +326,24 @@ theorem pnameOK_of_no_empty_name_rule (pk : PktK) (c : KCond) (hlan : pk.wanw % 
   intro _ hh hcp
   exact hc pk.pname hcp hh
 
+/-- The headline WITHOUT hypothesis H3 (no assumption relating `is_wan` and the process name): the
+statement one would want if WAN packets of unknown processes and rules naming the empty process are
+both admitted. It is FALSE of the code as it is (next theorem) — see `routeK_pname_gap`. -/
+def routeK_eq_userspace_without_H3 : Prop :=
+  ∀ (m : KMaps) (pk : PktK) (start : Nat) (kp : List KEntry) (tries : List (List Prefix)) (ubm : List Nat),
+    Installed m start kp tries → (∀ t ∈ tries, ∀ p ∈ t, p.WF) → PktOK pk →
+    (∀ w, m.domainWord pk.daddr w = ubm.getD w 0) →
+    (∀ k ∈ kp, k.cond.WF tries.length ∧ k.outbound < 256 ∧ k.mark < 2 ^ 32) →
+    routeK .little m pk = expectedK pk (matchU kp tries ubm pk)
+
+theorem routeK_eq_userspace_without_H3_fails : ¬ routeK_eq_userspace_without_H3 := by
+  intro h
+  have := h (installGen .little 0 [⟨.processName (List.replicate 16 0), false, 1, false, 0⟩, ⟨.fallback, false, 0, false, 0⟩] [] KMaps.empty)
+    ⟨1, 1, List.replicate 16 0, 0, 1, 40000, 443, 1, 2, 0⟩ 0
+    [⟨.processName (List.replicate 16 0), false, 1, false, 0⟩, ⟨.fallback, false, 0, false, 0⟩] [] []
+    (installGen_installed _ _ _ _ (by decide) (by decide)) (by decide)
+    ⟨by decide, by decide, by decide, by decide, by decide, by decide⟩ (fun w => rfl) (by decide)
+  revert this
+  decide
+
 end DaeVerif.C02.Props
